@@ -519,7 +519,35 @@ func ScenarioPlans(r *mrand.Rand, pool *Pool, n int) []*Plan {
 		e := CertSpec{ID: pool.ReserveID(), KeyID: k, Window: core.Pick(r, "current", "past", "forever"), KidText: kid2, KidKind: kk2}
 		p.Certs = []CertSpec{c, e}
 		sign := func(b uint64, d uint64) *Op { return &Op{Kind: OpSign, Blob: b, DataID: d} }
-		switch i % 4 {
+		switch i % 5 {
+		case 4: // several out-of-window certificates next to each other in the agent's listing, others after them
+			p.Class = "scenario-adjacent-invalid"
+			bad := func() string { return core.Pick(r, "past", "future", "zero", "inverted", "one-second-ago", "va-2^63") }
+			var ids []uint64
+			nbad := 2 + r.Intn(3)
+			for j := 0; j < nbad; j++ {
+				kj, kkj := GenKeyID(r)
+				x := CertSpec{ID: pool.ReserveID(), KeyID: uint64(1 + r.Intn(nk)), Window: bad(), KidText: kj, KidKind: kkj}
+				p.Certs = append(p.Certs, x)
+				ids = append(ids, x.ID)
+			}
+			c.Window = core.Pick(r, "current", "forever")
+			p.Certs[0] = c
+			switch r.Intn(3) {
+			case 0:
+				p.Initial = append(append([]uint64{}, ids...), k, c.ID)
+			case 1:
+				p.Initial = append(append([]uint64{k}, ids...), c.ID, k2)
+			default:
+				p.Initial = append(append([]uint64{c.ID, k}, ids...), k2)
+			}
+			first := core.Pick(r, OpList, OpSigners, OpSign)
+			if first == OpSign {
+				p.Ops = []*Op{sign(k, 1)}
+			} else {
+				p.Ops = []*Op{op(first, 0)}
+			}
+			p.Ops = append(p.Ops, op(OpList, 0), op(OpSigners, 0), sign(ids[1], 2), op(OpAddHard, c.ID), op(OpAddHard, ids[0]), op(OpAddHard, ids[1]), op(OpList, 0), op(OpList, 0))
 		case 0: // the agent's report becomes empty, then non-empty without the key
 			p.Class = "scenario-empty-report"
 			p.Initial = []uint64{k}
